@@ -9,7 +9,7 @@ from ..sim import make_content
 
 ID = "C08"
 LEVEL = "exploration"
-RULE = ("Hypothesis-generated pulls: content size {0,1,boundaries around 64 KiB, multi-MiB} U ints; DATA record size sequences (all-max, all-1, "
+RULE = ("Hypothesis-generated pulls: content size {0,1,boundaries around 64 KiB, multi-MiB} U ints; DATA record size sequences (zero-length records interspersed, all-max, all-1, "
         "random, cyclic); WRTE boundaries over the sync byte stream (one packet per record; fixed tiny sizes 1..7 that cut every 8-byte header; "
         "record length +/- delta so that the cut drifts through every header offset; random); read-fragmentation tape; destination path/BytesIO; "
         "callback none/recording/raising Exception/raising a BaseException subclass/re-entering the device with stat(); both APIs. Oracle: destination bytes == simulator file content; RECV request, one OKAY per device WRTE, "
@@ -47,6 +47,7 @@ def cases(draw):
         "api": draw(st.sampled_from(["sync", "async"])),
         "device": {"fs": {path.encode("utf8"): {"content": {"pat": draw(st.binary(min_size=1, max_size=9)), "n": n}, "mode": 0o100644, "mtime": 7}},
                    "recv_sizes": recv, "cuts": cuts, "rids": draw(sc.rid_list(4)), "zero_clse_reply": draw(st.booleans()),
+                   "recv_empty_at": draw(st.one_of(st.just([]), st.just([]), st.lists(st.integers(0, 6), max_size=3))),
                    "lag": draw(st.lists(st.integers(0, 2), max_size=2))},
         "dev_tape": draw(sc.dev_tape(10)),
         "transport": {"flavour": draw(sc.flavour()), "frag": frag},
@@ -110,6 +111,8 @@ def check_case(case):
         return Violation("close-count", "%d CLSE packets on the pull stream" % nclse), info
     if op["cb"]:
         recs = out.cb_records.get(len(out.results) - 1, [])
+        if any(not isinstance(n, int) or isinstance(n, bool) for _, n, _ in recs):
+            return Violation("callback-byte-counts", "callback received a byte count that is not an int: %r" % ([n for _, n, _ in recs][:4],)), info
         if sum(n for _, n, _ in recs) != len(content):
             return Violation("callback-byte-counts", "callback saw %d bytes, file has %d" % (sum(n for _, n, _ in recs), len(content))), info
         if any(t != len(content) or p != op["path"] for p, _, t in recs):
@@ -121,6 +124,8 @@ def check_case(case):
         info["classes"].append("header-split")
     if out.core.frag_reads:
         info["classes"].append("fragmented-reads")
+    if case["device"].get("recv_empty_at"):
+        info["classes"].append("zero-length-DATA-record")
     if len(content) >= 1048576:
         info["classes"].append("MiB+")
     info["sample"] = {"n": len(content), "recv_sizes": case["device"]["recv_sizes"], "cuts": case["device"]["cuts"], "wrte_sizes": [len(w) for w in main.written[:10]],
